@@ -1,6 +1,6 @@
 """C17 — Array and typed-array methods (structural clauses only)."""
 
-from ..rules import builtins, exceptions, tables
+from ..rules import builtins, exceptions, optargs, tables
 
 FAMILIES = set("array,typed_array".split(","))
 PREFIXES = "_make_array_method|_make_typed_array_method|_create_array_constructor|_create_typed_array_constructor|_create_arraybuffer_constructor|JSArray|JSTypedArray|JSInt|JSUint|JSFloat".split("|")
@@ -32,3 +32,6 @@ def run(ctx, rep):
     builtins.rule_no_read_after_write_between_views(ctx, rep, "C17-R15")
     textparse.rule_negative_positions(ctx, rep, "C17-R12", only=lambda q: "_make_array_method" in q or "_make_typed_array_method" in q or "_create_array_constructor" in q, floor=5)
     rep.undecided += ["the method result tables over the argument grid (values, not shape): a runtime differential, outside static analysis"]
+    optargs.rule_missing_is_undefined(ctx, rep, "C17-R16", lambda f: _in_family(f.qual), "the Array, typed-array and ArrayBuffer methods and constructors", floor=6)
+    builtins.rule_integral_double_printing(ctx, rep, "C17-R17")
+    builtins.rule_array_elements_to_text(ctx, rep, "C17-R18")
